@@ -190,3 +190,29 @@ Example C14_nv :
   bool_decide (run_rounds nv_h 1 [nv_round nv_cur; nv_round nv_mid] nv_cur = nv_target) = true /\
   bool_decide (nv_mid = nv_target) = false.
 Proof. repeat split; vm_compute; reflexivity. Qed.
+
+(* "at no point": the cap as an invariant of whole histories of Plugin.outcome (any votes in every round), and of histories ON THE
+   WIRE (BytesHistory: byte-level events of Plugin.Outcome linked by their bytes).  A history that starts from the first round's
+   outcome starts with no channel at all (C14_initial_within_cap). *)
+From DS Require BytesHistory HistoryProofs NvWire.
+Theorem C14_cap_history : forall h cf (es : list HistoryProofs.event) (e0 : HistoryProofs.event),
+  Forall (HistoryProofs.valid_event h cf) (e0 :: es) -> HistoryProofs.linked (e0 :: es) ->
+  (size (o_defs (HistoryProofs.ev_prev e0)) <= chan_cap)%nat ->
+  forall e, e ∈ (e0 :: es) -> (size (o_defs (HistoryProofs.ev_next e)) <= chan_cap)%nat.
+Proof. exact BytesHistory.cap_history. Qed.
+Print Assumptions C14_cap_history.
+Theorem C14_cap_on_the_wire : forall h check cf (bs : list BytesHistory.bevent) (b0 : BytesHistory.bevent),
+  BytesHistory.check_typed check -> Forall (BytesHistory.bvalid h check cf) (b0 :: bs) -> BytesHistory.blinked (b0 :: bs) ->
+  (size (o_defs (BytesHistory.dec_or_initial cf (BytesHistory.bv_prev b0))) <= chan_cap)%nat ->
+  forall b, In b (b0 :: bs) -> (size (o_defs (BytesHistory.dec_or_initial cf (BytesHistory.bv_next b))) <= chan_cap)%nat.
+Proof. intros h check. exact (BytesHistory.cap_on_the_wire h check). Qed.
+Print Assumptions C14_cap_on_the_wire.
+Theorem C14_initial_within_cap : forall cf, (size (o_defs (initial_outcome cf)) <= chan_cap)%nat.
+Proof. exact BytesHistory.initial_within_cap. Qed.
+(* non-vacuity on the wire: rounds 3-5 of props/NvWire.v are valid linked byte-level events starting from one channel *)
+Example C14_nv_cap_on_the_wire :
+  BytesHistory.check_typed NvWire.w_check /\
+  Forall (BytesHistory.bvalid NvHistory.nv_h NvWire.w_check NvHistory.nv_cf) (NvWire.w_e3 :: [NvWire.w_e4; NvWire.w_e5]) /\
+  BytesHistory.blinked (NvWire.w_e3 :: [NvWire.w_e4; NvWire.w_e5]) /\
+  size (o_defs (BytesHistory.dec_or_initial NvHistory.nv_cf (BytesHistory.bv_prev NvWire.w_e3))) = 1%nat.
+Proof. destruct NvWire.w_history as (H1 & H2 & H3 & _). split; [exact H1|]. split; [exact H2|]. split; [exact H3|]. vm_compute. reflexivity. Qed.
